@@ -12,12 +12,12 @@
   and the external commands refuse OK/Up and acknowledged objects, the cluster handler refuses acknowledged
   objects only.
 
-  KNOWN FINDING F-C06a (pinned tree).  ACKNOWLEDGE_{HOST,SVC}_PROBLEM_EXPIRE passes its expire time as the sixth
-  argument of `Checkable::AcknowledgeProblem`, which is `changeTime`; `expiry` keeps its default 0
-  (externalcommandprocessor.cpp:650, :724 vs. checkable.hpp:91).  Such an acknowledgement never expires, so
-  "either is cleared once its expiry time has passed" is false for it.  The faithful model has the same behaviour;
-  the whole-trace theorem is therefore proved as `model_trace_meets_spec_partial` for histories without such an
-  operation (`OpOk`), and `model_trace_meets_spec_counterexample` exhibits the witness.
+  F-C06a (fixed in /repo by commit 6eaa5f1).  ACKNOWLEDGE_{HOST,SVC}_PROBLEM_EXPIRE used to pass its expire time as the
+  sixth argument of `Checkable::AcknowledgeProblem`, which is `changeTime`, so that `expiry` kept its default 0 and such
+  an acknowledgement never expired.  This check found it (clause `expiry_clears` on the implementation's trace); with the
+  repair the model stores the requested expiry for every entry point, and the whole-trace theorem
+  `model_trace_meets_spec` holds without hypothesis.  The former witness is kept as a regression case in
+  corpus/C06/f_c06a_ext_expire.ops and as the `example` on `regressionOps` below.
 -/
 import IcingaProofs.C06.Lemmas
 
@@ -89,22 +89,23 @@ theorem expiry_clears (c : Cfg) (s : MSt) (op : Op) (he : expired s op.now = tru
     simp only [Op.now] at he
     rw [step_advance]; simp [getAck_of_expired, he]
 
-/-- The stored expiry is the requested one for every entry point except the `_EXPIRE` external commands
-    (the hypothesis of `model_trace_meets_spec_partial`, at the level of one operation). -/
-theorem stored_expiry_is_requested_partial (via : Via) (expiry : Int) (h : via ≠ .extExpire ∨ expiry = 0) :
+/-- **stored_expiry_is_requested.**  Every entry point stores the expiry the operation asked for (the plain
+    external command has no such argument and stores none). -/
+theorem stored_expiry_is_requested (via : Via) (expiry : Int) :
     storedExpiry via expiry = requestedExpiry via expiry := by
-  cases via <;> simp_all [storedExpiry, requestedExpiry]
+  cases via <;> simp [storedExpiry, requestedExpiry]
 
-/-- F-C06a at the level of one operation: an accepted ACKNOWLEDGE_SVC_PROBLEM_EXPIRE with expire time 1060 stores
-    expiry 0, and a look long after 1060 still finds the acknowledgement. -/
-theorem stored_expiry_is_requested_counterexample :
-    ¬ ∀ (c : Cfg) (s : MSt) (via : Via) (sticky notify persistent : Bool) (expiry now : Int),
-        (step c s (.ack via sticky notify persistent expiry now)).2.acc = true →
-        (step c s (.ack via sticky notify persistent expiry now)).1.expiry = requestedExpiry via expiry := by
-  intro h
-  have := h ⟨.service, 1, false⟩ init .extExpire true true false 1060 1050
-  revert this
-  decide
+/-- … hence an accepted acknowledgement whose expiry has not already passed carries exactly the requested expiry. -/
+theorem accepted_ack_stores_requested_expiry (c : Cfg) (s : MSt) (via : Via) (sticky notify persistent : Bool)
+    (expiry now : Int) (hacc : (step c s (.ack via sticky notify persistent expiry now)).2.acc = true)
+    (hng : ¬ (requestedExpiry via expiry ≠ 0 ∧ requestedExpiry via expiry < now)) :
+    (step c s (.ack via sticky notify persistent expiry now)).1.expiry = requestedExpiry via expiry ∧
+    (step c s (.ack via sticky notify persistent expiry now)).1.ack = ackTypeOf sticky := by
+  rw [← stored_expiry_is_requested] at hng ⊢
+  rw [step_ack] at hacc ⊢
+  cases hc : (preRefuse c s via expiry now || ackNow s now != .none)
+  · simp [hng]
+  · simp [hc] at hacc
 
 /-- **handled_iff.**  At every look the object counts as handled iff it is a problem and acknowledged (no downtime in
     the model); it is a problem iff a result has been accepted and the state is not OK/Up. -/
@@ -220,45 +221,23 @@ theorem problem_withheld_while_acked (c : Cfg) (s : MSt) (new : SState) (es ee n
     simp [h]
   · rw [step_result_stale c s new es ee now hst]
 
-/-
-  FULL STATEMENT (false of the pinned tree, see F-C06a above):
-
-    theorem model_trace_meets_spec (c : Cfg) (ops : List Op) :
-        specTrace c specInit (trace c init ops) = none
--/
-
-/-- **model_trace_meets_spec_partial** (the whole property as one statement).  For every configuration, every start
-    state with matching bookkeeping and every finite sequence of acknowledge / remove / result / time-advance
-    operations through the API action, the external commands and the cluster events — with arbitrary times, expiry
-    values and flags — in which no ACKNOWLEDGE_*_PROBLEM_EXPIRE carries a non-zero expire time, the model's trace
-    satisfies the executable specification `specTrace`. -/
-theorem model_trace_meets_spec_partial (c : Cfg) (sp : SpecSt) (s : MSt) (hr : Rel sp s) (ops : List Op)
-    (hok : ∀ op ∈ ops, OpOk op) :
+/-- **model_trace_meets_spec** (the whole property as one statement).  For every configuration, every start state
+    with matching bookkeeping and every finite sequence of acknowledge / remove / result / time-advance operations
+    through the API action, the external commands (with and without `_EXPIRE`) and the cluster events — with arbitrary
+    times, expiry values and flags — the model's trace satisfies the executable specification `specTrace`. -/
+theorem model_trace_meets_spec (c : Cfg) (sp : SpecSt) (s : MSt) (hr : Rel sp s) (ops : List Op) :
     specTrace c sp (trace c s ops) = none :=
-  spec_trace_rel c ops sp s hr hok
+  spec_trace_rel c ops sp s hr
 
 /-- … in particular from a never-checked, never-acknowledged object. -/
-theorem model_trace_meets_spec_from_init (c : Cfg) (ops : List Op) (hok : ∀ op ∈ ops, OpOk op) :
+theorem model_trace_meets_spec_from_init (c : Cfg) (ops : List Op) :
     specTrace c specInit (trace c init ops) = none :=
-  spec_trace_rel c ops specInit init rel_init hok
+  spec_trace_rel c ops specInit init rel_init
 
-/-- The witness of F-C06a: a service goes CRITICAL, is acknowledged at 1050 with
+/-- The former witness of F-C06a: a service goes CRITICAL, is acknowledged at 1050 with
     ACKNOWLEDGE_SVC_PROBLEM_EXPIRE;…;1060, and is looked at at 1070. -/
-def findingOps : List Op :=
+def regressionOps : List Op :=
   [.result .critical 1010 1010 1010, .ack .extExpire true true false 1060 1050, .advance 1070]
-
-/-- **model_trace_meets_spec_counterexample.**  The full statement is false of the faithful model: on `findingOps` the
-    acknowledgement is still there after its expiry time (clause `expiry_clears`). -/
-theorem model_trace_meets_spec_counterexample :
-    ¬ ∀ (c : Cfg) (ops : List Op), specTrace c specInit (trace c init ops) = none := by
-  intro h
-  have := h ⟨.service, 1, false⟩ findingOps
-  revert this
-  decide
-
-theorem finding_clause :
-    specTrace ⟨.service, 1, false⟩ specInit (trace ⟨.service, 1, false⟩ init findingOps) = some .expiryClears := by
-  decide
 
 /-! ## Non-vacuity: concrete, non-trivial instances of the hypotheses and of the specification -/
 
@@ -308,21 +287,32 @@ example : (step exCfg exNormal (.result .ok 1003 1003 1100)).1.comments = [⟨10
 example : (step exCfg { exNormal with ack := .none } (.result .warning 1100 1100 1100)).2.nProbN = 1 ∧
     (step exCfg exSticky (.result .warning 1100 1100 1100)).2.nProbN = 0 := by decide
 
-/-- A history through all entry points that satisfies `OpOk` and exercises every kind of clearing. -/
+/-- A history through all entry points that exercises every kind of clearing. -/
 def exOps : List Op :=
   [.result .critical 1010 1010 1010, .ack .api false true false 1100 1020, .result .critical 1030 1030 1030,
    .result .warning 1040 1040 1040, .ack .ext true false true 0 1050, .result .critical 1060 1060 1060,
    .ack .cluster false true false 0 1065, .result .ok 1070 1070 1070, .result .unknown 1080 1080 1080,
    .ack .cluster true true false 1090 1085, .advance 1095, .ack .extExpire false true false 0 1100, .remove .api 1110]
 
-example : (∀ op ∈ exOps, OpOk op) ∧
+example :
     (trace exCfg init exOps).map (fun p => (p.2.acc, p.2.ack, p.2.nSet, p.2.nClr)) =
       [(true, .none, 0, 0), (true, .normal, 1, 0), (true, .normal, 0, 0), (true, .none, 0, 1), (true, .sticky, 1, 0),
        (true, .sticky, 0, 0), (false, .sticky, 0, 0), (true, .none, 0, 1), (true, .none, 0, 0), (true, .sticky, 1, 0),
        (true, .none, 0, 1), (true, .normal, 1, 0), (true, .none, 0, 1)] := by
-  constructor
-  · decide
-  · decide
+  decide
+
+-- the regression case of F-C06a: the acknowledgement set by the `_EXPIRE` command stores its expiry and has run out at
+-- the look at 1070, with one cleared event
+example : (trace exCfg init regressionOps).map (fun p => (p.2.ack, p.2.expiry, p.2.nSet, p.2.nClr)) =
+    [(.none, 0, 0, 0), (.sticky, 1060, 1, 0), (.none, 0, 0, 1)] := by
+  decide
+
+/-- … and the behaviour before the repair (acknowledgement still there at 1070) is what the specification rejects. -/
+example : specTrace exCfg { state := .critical, ack := .sticky, expiry := 1060, comments := [⟨1050, false⟩] }
+    [(.advance 1070,
+      { acc := true, ack := .sticky, expiry := 0, handled := true, problem := true, state := .critical, stype := .hard,
+        attempt := 1, nSet := 0, nClr := 0, nAckN := 0, nProbN := 0, comments := [⟨1050, false⟩] })]
+    = some .expiryClears := by decide
 
 /-- The specification is not trivially true: a sticky acknowledgement that vanishes on CRITICAL → WARNING is rejected … -/
 example : specTrace exCfg { state := .critical, ack := .sticky, expiry := 0, comments := [] }
